@@ -425,7 +425,12 @@ class Runner:
 
 
 def corr_fail(ck, name, case, a, b):
-    ck.obligation("correspondence:" + name, "correspondence", False, "case %s\nimpl  %s\nmodel %s" % (case[:300], a[:600], b[:600]))
+    """model and implementation disagree (and the direct oracle did not fail): the first few cases are
+    reported in full, the rest only counted"""
+    n = ck.stats.get("correspondence_failures:" + name, 0)
+    ck.count("correspondence_failures:" + name)
+    if n < 3:
+        ck.obligation("correspondence:" + name, "correspondence", False, "case %s\nimpl  %s\nmodel %s" % (case[:300], a[:600], b[:600]))
 
 
 def run(ck):
@@ -437,7 +442,13 @@ def run(ck):
     except Exception as ex:  # fail closed
         ck.obligation("translator:keywords/escape/patterns", "translator", False, repr(ex))
         tables = None
-    ck.coq("Props.C13", clean=False)
+    proofs_ok = ck.coq("Props.C13", clean=(ck.tier == "thorough"))
+    if not proofs_ok:
+        # a proof no longer checks: the models (kept in files without proofs) are still built, so that
+        # the correspondence and the direct oracles below search for a concrete failing input
+        rc, out = core.coq_make(["Gen/Keywords.vo"] + ["Codec/%s.vo" % m for m in ("Escape", "Ident", "Num", "YamlScalar", "Loaders")])
+        if rc != 0:
+            ck.log("models do not build either:\n" + out[-1500:])
     ok = ck.harness(["c13"])
     exe_model = ck.model("C13.v")
     if not ok or not exe_model or tables is None:
